@@ -12,7 +12,7 @@ import (
 func TestVerif_C13(t *testing.T) {
 	r := verifrt.Start(t, "C13")
 	defer r.Finish()
-	r.SetRule("PRNG histories (same generator and FIFO/flow-control model as C12) on the RFC 9218 scheduler only, 2-10 open streams drawn from 1-3 urgency values x {incremental, non-incremental}, priorities set at OpenStream, by AdjustStream on open streams and by one buffered pre-open AdjustStream; profiles: 'busy' (large windows, long DATA so streams stay sendable), 'blocked' (small windows, frequent flow-control stalls), 'short' (6-40 ops). non-trivial = history with a stream-frame Pop that passed over a less urgent sendable stream AND a Pop with >=2 sendable incremental streams in the served class AND a Pop with incremental and non-incremental streams sendable in the same class; distinct by complete op log")
+	r.SetRule("PRNG histories (same generator and FIFO/flow-control model as C12) on the RFC 9218 scheduler only, 2-10 open streams drawn from 1-3 urgency values x {incremental, non-incremental}, priorities set at OpenStream, by AdjustStream on open streams and by one buffered pre-open AdjustStream; profiles: 'busy' (large windows, long DATA so streams stay sendable), 'blocked' (small windows, frequent flow-control stalls), 'short' (6-40 ops), 'control-rhythm' (one urgency, then 60 rounds of: top up DATA, push c control frames, pop c+1 frames, c fixed per history in {0,1,2,3,5}). non-trivial = history with a stream-frame Pop that passed over a less urgent sendable stream AND a Pop with >=2 sendable incremental streams in the served class AND a Pop with incremental and non-incremental streams sendable in the same class; distinct by complete op log")
 	r.Assume("the model knows every stream's (urgency, incremental): OpenStreamOptions.priority, the latest AdjustStream, or the one buffered pre-open update; the workload never has two pre-open updates outstanding, so one-slot and multi-slot buffers are indistinguishable")
 	r.Assume("bounds: an incremental stream continuously sendable at the most urgent sendable level is served within 2*(k+1) stream-frame Pops (k = incremental streams of its class); a non-incremental stream that was served and stays sendable is the next one served in its class, and is not passed over more than 4 consecutive stream-frame Pops while its class is the most urgent sendable one")
 
@@ -51,6 +51,9 @@ func TestVerif_C13(t *testing.T) {
 		wOpen: 8, wClose: 4, wAdjust: 9, wData: 26, wHeaders: 6, wCtl: 3, wWindow: 4, wPop: 40, wMaxFrame: 0}
 	blocked := vwsParams{minOps: 60, maxOps: 400, maxStreams: 8, urgencies: 3, bigWindows: false,
 		wOpen: 7, wClose: 5, wAdjust: 9, wData: 24, wHeaders: 7, wCtl: 5, wWindow: 12, wPop: 30, wMaxFrame: 1}
+	rhythm := vwsParams{minOps: 10, maxOps: 40, maxStreams: 5, urgencies: 1, bigWindows: true, ctlRhythm: true,
+		wOpen: 14, wClose: 1, wAdjust: 4, wData: 40, wHeaders: 2, wCtl: 2, wWindow: 1, wPop: 10, wMaxFrame: 0}
+	run("control-rhythm", r.N(1500, 40000), rhythm)
 	run("short", r.N(6000, 200000), short)
 	run("busy", r.N(2500, 80000), busy)
 	run("blocked", r.N(1500, 40000), blocked)
@@ -63,4 +66,5 @@ func TestVerif_C13(t *testing.T) {
 	r.Require("prio_nonincremental_continuations_checked", 5000)
 	r.Require("prio_preopen_updates_applied", 200)
 	r.Require("histories_nontrivial", 300)
+	r.Require("histories_with_control_rhythm", 1000)
 }
